@@ -33,6 +33,7 @@ def w_fields():
 
 
 SCHEMA_K = """
+directive @tag(name: String) repeatable on FIELD | FRAGMENT_DEFINITION | FRAGMENT_SPREAD | INLINE_FRAGMENT
 interface Node { id: ID! }
 interface Named implements Node { id: ID! name: String }
 type User implements Node & Named {
